@@ -153,7 +153,7 @@ def tlc_chunk_sequences(mc_tla, cfg, num, depth, seed, workdir):
 
 
 # ------------------------------------------------------------------------------------- concurrent
-ADEF = {"k": "", "t": 0, "e": 0, "f": 0, "g": 0, "n": 0, "id": 0, "pages": [], "bytes": [], "segs": [], "data": [], "live": [], "guards": True,
+ADEF = {"k": "", "t": 0, "e": 0, "f": 0, "g": 0, "n": 0, "ids": [], "pages": [], "bytes": [], "segs": [], "data": [], "live": [], "guards": True,
         "rot": False, "status": "", "P": 0, "cap": 0, "closer_blocked": False, "judge_close": True}
 
 
@@ -174,7 +174,10 @@ def app_lines(events):
         elif k == "dcall":
             out.append(dict(ADEF, k="dcall", t=t, e=e["e"], n=e["n"], pages=e.get("pages", [])))
         elif k in ("alloc", "free"):
-            out.append(dict(ADEF, k=k, t=t, id=e["id"]))
+            if out and out[-1]["k"] == k and out[-1]["t"] == t:
+                out[-1]["ids"].append(e["id"])      # runs of one thread are one line
+            else:
+                out.append(dict(ADEF, k=k, t=t, ids=[e["id"]]))
         elif k == "check":
             out.append(dict(ADEF, k="check", t=t, f=e["f"], g=e["g"], rot=e["rot"]))
         elif k == "writev":
